@@ -153,8 +153,8 @@ def run(run, replay=None):
                 + b'\n#..file:\n#...meta: length=%d\n' % (len(b'{"a": "' + b'y' * 300 + b'"}\n'))
                 + b'{"a": "' + b'y' * 300 + b'"}\n')
     files.append(long_hdr)
-    pads = list(range(0, 100 if quick else 193))
-    sizes = [1, 2, 3, 7, 16, 95, 96, 97, 192, 10 ** 6] if quick else list(range(1, 194)) + [10 ** 6]
+    pads = list(range(0, 194))
+    sizes = [1, 2, 3, 5, 7, 16, 31, 64, 95, 96, 97, 128, 191, 192, 193, 10 ** 6] if quick else list(range(1, 194)) + [10 ** 6]
     jobs = [(data, pads[k::4], sizes) for data in files for k in range(4)]
     # later headers brought to every length around the block size (only files whose content has no '#')
     later = [(h, total) for h in (0, 1, 2, 3, 4)
